@@ -44,6 +44,10 @@ M = [
  ("c18-enter-tx-ignores-resizing", "C18", "store/src/lmdb.rs", "\t\t\tif !state.resizing.load(Ordering::Acquire) || nested_tx {", "\t\t\tif true || !state.resizing.load(Ordering::Acquire) || nested_tx {", ["C18"]),
  ("c18-resize-despite-open-txs", "C18", "store/src/lmdb.rs", "\t\tif self.open_txs_count() != 0 {", "\t\tif false && self.open_txs_count() != 0 {", ["C18"]),
  ("c18-iter-paging-off-by-one", "C18", "store/src/lmdb.rs", "Self::read_key_page(&self.db, &self.read, self.skip_total)?;", "Self::read_key_page(&self.db, &self.read, self.skip_total + 1)?;", ["C18"]),
+ ("c14-adapter-reconciles-only-next", "C14", "servers/src/common/adapters.rs", "\t\tif status.is_next() || status.is_reorg() {\n\t\t\tlet mut tx_pool = self.tx_pool.write();", "\t\tif status.is_next() {\n\t\t\tlet mut tx_pool = self.tx_pool.write();", ["C14"]),
+ ("c14-adapter-pool-head-from-header-chain", "C14", "servers/src/common/adapters.rs", "\tfn chain_head(&self) -> Result<BlockHeader, pool::PoolError> {\n\t\tself.chain()\n\t\t\t.head_header()", "\tfn chain_head(&self) -> Result<BlockHeader, pool::PoolError> {\n\t\tself.chain()\n\t\t\t.header_head()\n\t\t\t.and_then(|t| self.chain().get_block_header(&t.last_block_h))", ["C14"]),
+ ("c11-api-push-tx-len-unchecked", "C11", "core/src/libtx/secp_ser.rs", "\tif val.len() > MAX_PROOF_SIZE {", "\tif false && val.len() > MAX_PROOF_SIZE {", ["C11"]),
+ ("c16-segment-height-guard-removed", "C16", "core/src/core/pmmr/segment.rs", "\t\tif segment_id.height > 63 {", "\t\tif false && segment_id.height > 63 {", ["C16"]),
  ("c18-resize-check-skipped-when-busy", "C18", "store/src/lmdb.rs", "\t\t\tif nested_tx {\n\t\t\t\treturn;\n\t\t\t}\n\t\t\tthread::sleep(Duration::from_millis(1));", "\t\t\tlet _ = nested_tx;\n\t\t\treturn;", ["C18"]),
 ]
 
